@@ -699,7 +699,7 @@ fn gen_c03(o: &mut Out, r: &mut Rng, d: &GDict, tier: &str) {
     let thorough = tier == "thorough";
     let corpus = corpus_messages(r, d);
     // (1) well-formed frames with arbitrary padding octets and reserved flag bits: must be accepted
-    let n_good = if thorough { 40000 } else { 3000 };
+    let n_good = if thorough { 300000 } else { 3000 };
     for i in 0..n_good {
         let m = message(r, d, 6, 4);
         let f = if i % 4 == 0 { m.encode(&mut None) } else { m.encode(&mut Some(r)) };
@@ -720,7 +720,7 @@ fn gen_c03(o: &mut Out, r: &mut Rng, d: &GDict, tier: &str) {
     }
     // the public entry points `Avp::decode_from` / `Grouped::decode_from` on a cursor: single AVPs (well formed,
     // truncated, with a lying length, padding cut off so that the seek runs past the end) and group payloads
-    for _ in 0..(if thorough { 20000 } else { 2500 }) {
+    for _ in 0..(if thorough { 200000 } else { 2500 }) {
         let a = avp(r, d, 2, 3);
         let mut f = if r.chance(1, 2) { a.encode(&mut Some(r)) } else { a.encode(&mut None) };
         match r.below(8) {
@@ -824,7 +824,7 @@ fn gen_c03(o: &mut Out, r: &mut Rng, d: &GDict, tier: &str) {
         }
     }
     // (4) structure-aware hostile frames
-    let n_host = if thorough { 30000 } else { 3000 };
+    let n_host = if thorough { 400000 } else { 3000 };
     for _ in 0..n_host {
         let m = message(r, d, 4, 3);
         let mut f = m.encode(&mut None);
@@ -911,7 +911,7 @@ fn gen_c03(o: &mut Out, r: &mut Rng, d: &GDict, tier: &str) {
         }
     }
     // (5) random octets behind a valid header
-    let n_rand = if thorough { 20000 } else { 2000 };
+    let n_rand = if thorough { 300000 } else { 2000 };
     for _ in 0..n_rand {
         let mut m = header(r);
         m.avps.clear();
@@ -1030,7 +1030,7 @@ fn gen_c04(o: &mut Out, r: &mut Rng, d: &GDict, tier: &str) {
         o.line(&format!("decq {}", hex(&f)));
     }
     // havoc
-    let n_havoc = if thorough { 200000 } else { 12000 };
+    let n_havoc = if thorough { 2000000 } else { 12000 };
     for _ in 0..n_havoc {
         let m = message(r, d, 5, 4);
         let mut f = m.encode(&mut Some(r));
@@ -1082,7 +1082,7 @@ fn gen_c04(o: &mut Out, r: &mut Rng, d: &GDict, tier: &str) {
         o.line(&format!("decq {}", hexd(&f)));
     }
     // random octets
-    let n_rand = if thorough { 50000 } else { 4000 };
+    let n_rand = if thorough { 600000 } else { 4000 };
     for _ in 0..n_rand {
         let n = r.below(200) as usize;
         let mut f = r.bytes(n);
